@@ -172,7 +172,14 @@ func (c20) Case(c *core.Ctx) {
 	}
 	eqErr := func(a, b error) bool { return (a == nil) == (b == nil) }
 	safe := r.Intn(2) == 0
-	if safe && strings.ContainsAny(string(doc)+string(jb), "<>&") {
+	flags := []bool{safe}
+	if r.Intn(5) == 0 {
+		// the optional argument given zero times or twice: the wrappers pass on exactly what they were given
+		flags = [][]bool{nil, {true, false}, {false, true}, {true, true}}[r.Intn(4)]
+		safe = len(flags) == 1 && flags[0]
+		c.Count("safe-flag-given-0-or-2-times")
+	}
+	if (safe || len(flags) == 2) && strings.ContainsAny(string(doc)+string(jb), "<>&") {
 		c.Count("safe-flag-matters")
 	}
 
@@ -183,24 +190,24 @@ func (c20) Case(c *core.Ctx) {
 		a, ea := x2j.MapToXml(mx)
 		b, eb := mx.Xml()
 		cmp("x2j.MapToXml", sameOut(a, ea, b, eb), core.D{"observed": string(a), "expected": string(b)})
-		a, ea = x2j.XmlToJson(doc, safe)
-		b, eb = mx.Json(safe)
-		cmp("x2j.XmlToJson", sameOut(a, ea, b, eb), core.D{"safe": safe, "observed": string(a), "expected": string(b)})
+		a, ea = x2j.XmlToJson(doc, flags...)
+		b, eb = mx.Json(flags...)
+		cmp("x2j.XmlToJson", sameOut(a, ea, b, eb), core.D{"safe_flags": fmt.Sprint(flags), "observed": string(a), "expected": string(b)})
 		var w bytes.Buffer
-		a, ea = x2j.XmlToJsonWriter(doc, &w, safe)
-		cmp("x2j.XmlToJsonWriter", ea == nil && bytes.Equal(a, b) && bytes.Equal(w.Bytes(), b), core.D{"safe": safe, "observed": string(a), "written": w.String(), "expected": string(b)})
-		raw, a, ea := x2j.XmlReaderToJson(plainReader{bytes.NewReader(doc)}, safe)
+		a, ea = x2j.XmlToJsonWriter(doc, &w, flags...)
+		cmp("x2j.XmlToJsonWriter", ea == nil && bytes.Equal(a, b) && bytes.Equal(w.Bytes(), b), core.D{"safe_flags": fmt.Sprint(flags), "observed": string(a), "written": w.String(), "expected": string(b)})
+		raw, a, ea := x2j.XmlReaderToJson(plainReader{bytes.NewReader(doc)}, flags...)
 		_, wantRaw, _ := mxj.NewMapXmlReaderRaw(plainReader{bytes.NewReader(doc)})
 		cmp("x2j.XmlReaderToJson", ea == nil && bytes.Equal(a, b) && bytes.Equal(raw, wantRaw), core.D{"observed": string(a), "raw": string(raw), "expected": string(b), "expected_raw": string(wantRaw)})
 		w.Reset()
-		raw, a, ea = x2j.XmlReaderToJsonWriter(plainReader{bytes.NewReader(doc)}, &w, safe)
+		raw, a, ea = x2j.XmlReaderToJsonWriter(plainReader{bytes.NewReader(doc)}, &w, flags...)
 		cmp("x2j.XmlReaderToJsonWriter", ea == nil && bytes.Equal(a, b) && bytes.Equal(w.Bytes(), b) && bytes.Equal(raw, wantRaw), core.D{"observed": string(a), "written": w.String(), "expected": string(b)})
 
 		m2, e2 := j2x.JsonToMap(jb)
 		cmp("j2x.JsonToMap", e2 == nil && jv.Equal(m2, map[string]interface{}(mj)), nil)
-		a, ea = j2x.MapToJson(mj, safe)
-		b, eb = mj.Json(safe)
-		cmp("j2x.MapToJson", sameOut(a, ea, b, eb), core.D{"safe": safe, "observed": string(a), "expected": string(b)})
+		a, ea = j2x.MapToJson(mj, flags...)
+		b, eb = mj.Json(flags...)
+		cmp("j2x.MapToJson", sameOut(a, ea, b, eb), core.D{"safe_flags": fmt.Sprint(flags), "observed": string(a), "expected": string(b)})
 		a, ea = j2x.JsonToXml(jb)
 		b, eb = mj.Xml()
 		cmp("j2x.JsonToXml", sameOut(a, ea, b, eb), core.D{"observed": string(a), "expected": string(b)})
@@ -423,6 +430,25 @@ func (c20) Case(c *core.Ctx) {
 		ps := x2jw.PathsForKey(mm, key)
 		cmp("x2j-wrapper.PathsForKey", sortedStrings(ps) == wantP, core.D{"map": jv.Show(mm), "key": key, "observed": sortedStrings(ps), "expected": wantP})
 		nonEmpty("x2j-wrapper.PathsForKey", jv.Fp(mm)+key, len(ps))
+		if !side.xml && r.Intn(6) == 0 {
+			// the same map object asked again after it was changed in place: the answer follows the Map
+			mm = jv.Copy(mm).(jv.M)
+			x2jw.PathsForKey(mm, key)
+			x2jw.PathForKeyShortest(mm, key)
+			mm["added-later"] = jv.M{key: "late", "deeper": jv.M{key: jv.L{jv.M{key: 1.0}}}}
+			for _, k2 := range sortedKeys(mm) {
+				if k2 != "added-later" && r.Intn(2) == 0 {
+					delete(mm, k2)
+					break
+				}
+			}
+			wantP = sortedStrings(mxj.Map(mm).PathsForKey(key))
+			wantShort = mxj.Map(mm).PathForKeyShortest(key)
+			m = mxj.Map(mm)
+			ps2 := x2jw.PathsForKey(mm, key)
+			cmp("x2j-wrapper.PathsForKey", sortedStrings(ps2) == wantP, core.D{"map": jv.Show(mm), "key": key, "observed": sortedStrings(ps2), "expected": wantP, "note": "second query on the same map object after it was changed in place"})
+			c.Count("walkers:query-mutate-query")
+		}
 		sh := x2jw.PathForKeyShortest(mm, key)
 		okS := (sh == "") == (wantShort == "") && len(strings.Split(sh, ".")) == len(strings.Split(wantShort, "."))
 		if okS && sh != "" {
